@@ -611,10 +611,15 @@ def gen_tree(seed):
 
 _PAIR = re.compile(r"([A-Za-z0-9_]+):(-?\d+(?:/\d+)?)(?=[,}])")
 def _exact_double(fr):
+    """a dyadic rational with at most 26 significant bits: sums and PRODUCTS of two such numbers are computed
+    exactly in binary64, so a program all of whose coefficients stay of this form has not rounded anywhere"""
     try:
-        return Fr(float(fr)) == fr
+        if Fr(float(fr)) != fr: return False
     except OverflowError:
         return False
+    n = abs(fr.numerator)
+    while n and n % 2 == 0: n //= 2
+    return n.bit_length() <= 26
 def dyadic_program(lines):
     """every scalar literal of the program is a dyadic rational (exactly representable input)"""
     for l in lines:
